@@ -1,12 +1,15 @@
 #!/bin/bash
 # usage: mutest.sh <patch-file> <Cxx> [more props...]  -- apply a patch to /repo, run checks, revert
+# evidence written while the patch is applied is discarded (the evidence dir is restored afterwards)
 set -u
 P=$1; shift
 cd /repo || exit 2
 if ! git diff --quiet; then echo "repo dirty, refusing"; exit 2; fi
 git apply "$P" || { echo "patch does not apply"; exit 2; }
-rc=0
+SAVE=$(mktemp -d)
+cp -a /verif/evidence/. "$SAVE"/ 2>/dev/null
 for c in "$@"; do
   (cd /verif && ./check $c 2>&1 | grep -v "WARNING conda" | grep -E "VIOLATION|finding|KNOWN|INFRA|obligations" | head -${MUT_LINES:-8})
 done
-git checkout -- . 
+git checkout -- .
+rm -rf /verif/evidence; mkdir -p /verif/evidence; cp -a "$SAVE"/. /verif/evidence/; rm -rf "$SAVE"
